@@ -17,6 +17,7 @@ import (
 
 	"verif/internal/harness"
 	"verif/internal/pbfgen"
+	"verif/internal/pbfscan"
 )
 
 func TestMain(m *testing.M) { harness.Main(m, "C09") }
@@ -35,6 +36,9 @@ type Case struct {
 	// before the first Scan; 2 after the first object (a resumed stream has no
 	// header block; asking for it must not disturb the scan).
 	ResumeHeader int
+	// ResumeWhileOpen: additionally resume at a block offset while the first
+	// scanner is still open and blocked inside that block.
+	ResumeWhileOpen bool
 }
 
 func skipped(c *Case, o osm.Object) bool {
@@ -180,6 +184,32 @@ func run(c Case) error {
 		}
 	}
 
+	// resuming while the first scanner is still open and waiting for input: the
+	// first scanner stalls one byte short of the end of block StallBlock, a
+	// resumed scanner reads from that block's offset to the end, then the first
+	// one finishes
+	if c.ResumeWhileOpen && len(enc.Blocks) > 0 {
+		b := c.Stop
+		if b < 0 {
+			b = 0
+		}
+		b %= len(enc.Blocks)
+		k := len(all) // index of the first element at or after block b (the scenario runs without skip flags)
+		for i := range all {
+			if blockOfAll[i] >= b {
+				k = i
+				break
+			}
+		}
+		d, hang := pbfscan.Two(enc.Data, all, c.Procs, enc.Blocks[b].End-1, enc.Data[off(b):], all[k:], c.ResumeProcs, c.ResumeHeader == 1)
+		if hang {
+			return harness.Failf("C09/hang", "%s", d)
+		}
+		if d != "" {
+			return harness.Failf("C09/resume-while-open", "resumed at block %d while the first scanner was still open: %s", b, d)
+		}
+	}
+
 	// an actual early stop: the counters read after Close are those of the
 	// last returned object
 	if c.Stop >= 0 && c.Stop <= len(want) {
@@ -233,14 +263,15 @@ func TestResume(t *testing.T) {
 		Rule: "generated PBF files (1..7 blocks; byte offsets known to the encoder) x skip flags (which create empty blocks) x decoder counts (resumed scanners with 1, 2, 4, 11 or 16 decoders, i.e. also with unbuffered per-decoder queues; half of them call Header() before the first Scan or after the first object); every stop position is evaluated in one pass (counters read after every Scan) and a second scanner is started at EVERY block offset; an extra early-stopped scanner is closed after a drawn number of objects; oracle = encoder's block offsets and the model's remaining objects; non-trivial = at least two data blocks (has-empty-block counted separately)",
 		Gen: func(t *rapid.T) Case {
 			return Case{
-				File:          pbfgen.GenFile(t, pbfgen.Opt{MinBlocks: 1, MaxBlocks: 7}),
-				Procs:         rapid.SampledFrom([]int{1, 2, 3, 5, 16}).Draw(t, "procs"),
-				ResumeProcs:   rapid.SampledFrom([]int{1, 2, 4, 11, 16}).Draw(t, "rprocs"),
-				ResumeHeader:  rapid.SampledFrom([]int{0, 0, 1, 2}).Draw(t, "rheader"),
-				SkipNodes:     rapid.IntRange(0, 2).Draw(t, "sn") == 0,
-				SkipWays:      rapid.IntRange(0, 2).Draw(t, "sw") == 0,
-				SkipRelations: rapid.IntRange(0, 2).Draw(t, "sr") == 0,
-				Stop:          rapid.IntRange(-1, 30).Draw(t, "stop"),
+				File:            pbfgen.GenFile(t, pbfgen.Opt{MinBlocks: 1, MaxBlocks: 7}),
+				Procs:           rapid.SampledFrom([]int{1, 2, 3, 5, 16}).Draw(t, "procs"),
+				ResumeProcs:     rapid.SampledFrom([]int{1, 2, 4, 11, 16}).Draw(t, "rprocs"),
+				ResumeHeader:    rapid.SampledFrom([]int{0, 0, 1, 2}).Draw(t, "rheader"),
+				ResumeWhileOpen: rapid.IntRange(0, 3).Draw(t, "whileOpen") == 0,
+				SkipNodes:       rapid.IntRange(0, 2).Draw(t, "sn") == 0,
+				SkipWays:        rapid.IntRange(0, 2).Draw(t, "sw") == 0,
+				SkipRelations:   rapid.IntRange(0, 2).Draw(t, "sr") == 0,
+				Stop:            rapid.IntRange(-1, 30).Draw(t, "stop"),
 			}
 		},
 		Check:    check,
